@@ -113,12 +113,15 @@ func (s *STP) SerializeTo(b gopacket.SerializeBuffer, opts gopacket.SerializeOpt
 	}
 	bytes[4] = flags
 
+	if len(s.RouteID.HwAddr) != 6 || len(s.BridgeID.HwAddr) != 6 {
+		return errors.New("STP root and bridge hardware addresses must be 6 bytes long")
+	}
 	prioRoot, err := checkPriority(s.RouteID.Priority)
 	if err != nil {
-		panic(err)
+		return err
 	}
 	if s.RouteID.SysID >= 4096 {
-		panic("Invalid VlanID value ..!")
+		return errors.New("Invalid VlanID value ..!")
 	}
 	binary.BigEndian.PutUint16(bytes[5:7], prioRoot|s.RouteID.SysID)
 	copy(bytes[7:13], s.RouteID.HwAddr)
@@ -127,10 +130,10 @@ func (s *STP) SerializeTo(b gopacket.SerializeBuffer, opts gopacket.SerializeOpt
 
 	prioBridge, err := checkPriority(s.BridgeID.Priority)
 	if err != nil {
-		panic(err)
+		return err
 	}
 	if s.BridgeID.SysID >= 4096 {
-		panic("Invalid VlanID value ..!")
+		return errors.New("Invalid VlanID value ..!")
 	}
 	binary.BigEndian.PutUint16(bytes[17:19], prioBridge|s.BridgeID.SysID)
 	copy(bytes[19:25], s.BridgeID.HwAddr)
